@@ -196,6 +196,15 @@ func c06NeedsBlank(p, s string) bool {
 		return true
 	}
 	a, b := p[len(p)-1], s[0]
+	if c06IsRegexLit(p) {
+		// the literal ends at its closing slash, whatever follows: /a/.length(), /a/+x, /a//2
+		return c06IsRegexLit(s)
+	}
+	if c06IsRegexLit(s) {
+		// a regex literal may stand directly after an operator character or an opening
+		// bracket -- except after a slash, which would close it at once
+		return a == '/' || c06Wordish(p) || a == ')' || a == ']'
+	}
 	if a == '/' || b == '/' || a == '#' || b == '#' {
 		return true
 	}
@@ -207,6 +216,10 @@ func c06NeedsBlank(p, s string) bool {
 		return true
 	}
 	return false
+}
+
+func c06IsRegexLit(t string) bool {
+	return len(t) >= 3 && t[0] == '/' && t[len(t)-1] == '/'
 }
 
 func c06Wordish(s string) bool {
@@ -309,7 +322,44 @@ const c06Input = `{"p": 6, "q": "b", "w": [1, 2]}`
 
 type c06G struct {
 	r   *rand.Rand
-	bad bool // allow non-assignable targets (ill-formed stream)
+	bad bool    // allow non-assignable targets (ill-formed stream)
+	rx  float64 // probability of a regex literal where an operand is wanted (0: only as the plain right operand of ~ / !~)
+}
+
+var c06RegexLits = []string{"/a/", "/^[0-9]+$/", "/b|7/", "/x?y/", "/\\d/", "/7/", "/[a-b]+1/"}
+
+// rxOperand: a regex literal as an operand of something: bare, under a suffix chain, a
+// prefix operator, or as either operand of a binary operator that binds tighter than ~
+func (g *c06G) rxOperand(d int) *c06N {
+	r := g.r
+	re := c06Atom(pick(r, c06RegexLits))
+	if d < 0 {
+		d = 0
+	}
+	switch r.Intn(12) {
+	case 0, 1:
+		return re
+	case 2:
+		return &c06N{k: "bin", op: "+", a: re, b: g.gen(d, 's')}
+	case 3:
+		return &c06N{k: "bin", op: "+", a: g.gen(d, 's'), b: re}
+	case 4:
+		return &c06N{k: "bin", op: pick(r, c06Arith), a: re, b: g.gen(d, 'x')}
+	case 5:
+		return &c06N{k: "bin", op: pick(r, []string{"*", "+", "-"}), a: g.gen(d, 'x'), b: re}
+	case 6:
+		return c06Chain(re, pick(r, []string{".length()", "[0]", ".k", ".length().floor()", "(1)", "['k']", ".k.j"}))
+	case 7:
+		return &c06N{k: "un", op: pick(r, []string{"-", "+", "!"}), a: re}
+	case 8:
+		return &c06N{k: "bin", op: "+", a: re, b: c06Atom(pick(r, []string{"'a'", "'7'", "''", "s1", "1"}))}
+	case 9:
+		return &c06N{k: "bin", op: "+", a: c06Atom(pick(r, []string{"'a'", "'7'", "''", "s1"})), b: re}
+	case 10:
+		return &c06N{k: "bin", op: pick(r, c06Arith), a: re, b: c06Atom(pick(r, c06RegexLits))}
+	default:
+		return &c06N{k: "un", op: "-", a: c06Chain(re, ".length()")}
+	}
 }
 
 func (g *c06G) numTarget() *c06N {
@@ -379,6 +429,10 @@ func (g *c06G) sufLit(ty byte) *c06N {
 
 func (g *c06G) atom(ty byte) *c06N {
 	r := g.r
+	if g.rx > 0 && chance(r, g.rx) {
+		// a regex literal where a number / string / boolean is wanted (numeric value 0, string form "", falsy)
+		return g.rxOperand(0)
+	}
 	if chance(r, 0.12) {
 		return g.sufLit(ty)
 	}
@@ -519,7 +573,9 @@ func (g *c06G) gen(d int, ty byte) *c06N {
 			return &c06N{k: "bin", op: pick(r, c06Cmp), a: g.gen(d, t), b: g.gen(d, u)}
 		case 5:
 			var pat *c06N
-			if chance(r, 0.5) {
+			if g.rx > 0 && chance(r, 0.7) {
+				pat = g.rxOperand(d - 1)
+			} else if chance(r, 0.5) {
 				pat = c06Atom(pick(r, []string{"/a/", "/^[0-9]+$/", "/b|7/", "/x?y/", "/\\d/"}))
 			} else {
 				pat = g.gen(d, 's')
@@ -644,9 +700,14 @@ var c06Valuations = []struct{ name, set string }{
 }
 
 func c06EmitSeq(emit func(Case), ops []string, valuations int) {
-	names := []string{"a", "b", "c", "d"}
+	c06EmitSeqAtoms(emit, "seq:", []string{"a", "b", "c", "d"}, ops, valuations)
+}
+
+// c06EmitSeqAtoms: the operator sequence over the given operand texts (variables a b c d,
+// or literals such as a regex literal in one of the positions)
+func c06EmitSeqAtoms(emit func(Case), idp string, names []string, ops []string, valuations int) {
 	atoms := make([]*c06N, len(ops)+1)
-	flat := []string{"a"}
+	flat := []string{names[0]}
 	for i := range atoms {
 		atoms[i] = c06Atom(names[i])
 		if i > 0 {
@@ -657,7 +718,7 @@ func c06EmitSeq(emit func(Case), ops []string, valuations int) {
 	tree := c06Group(atoms, ops)
 	full := c06Text(tree, c06Full, nil, c06Spaced)
 	min := c06Text(tree, c06Min, nil, c06Spaced)
-	id := "seq:" + strings.Join(ops, " ")
+	id := idp + strings.Join(ops, " ")
 	meta := func(t, which string) map[string]string {
 		return map[string]string{"expression": t, "rendering": which, "operators": strings.Join(ops, " "), "documented grouping": full}
 	}
@@ -851,6 +912,116 @@ func c06PrefixAtomSuffix(r *rand.Rand, tier string, emit func(Case)) {
 	}
 }
 
+// ---- regex literals as operands ---------------------------------------------
+
+// c06RegexOperands: a regex LITERAL in every operand position -- of operator pairs and
+// triples, under prefix operators and suffix chains in front of and behind every binary
+// operator (in particular as the right operand of ~ / !~ followed by a tighter operator or
+// a suffix), and inside random trees.  Every binary operator parses its right operand one
+// level above its own, whatever the operand is.
+func c06RegexOperands(r *rand.Rand, tier string, emit func(Case)) {
+	plain := c06SeqOps[:15]
+	// (1) operator pairs: all 20 x 20, the regex literal as first, middle and last operand
+	for _, o1 := range c06SeqOps {
+		for _, o2 := range c06SeqOps {
+			for pos := 0; pos < 3; pos++ {
+				names := []string{"a", "b", "c", "d"}
+				names[pos] = pick(r, []string{"/a/", "/7/", "/^[0-9]+$/"})
+				c06EmitSeqAtoms(emit, fmt.Sprintf("rxseq%d:", pos), names, []string{o1, o2}, tierN(tier, 1, 3))
+			}
+		}
+	}
+	// operator triples: ~ or !~ in one place with a regex literal to its right (all), and a sample of the rest
+	var triples [][]string
+	for _, o1 := range c06SeqOps {
+		for _, o2 := range c06SeqOps {
+			for _, o3 := range c06SeqOps {
+				triples = append(triples, []string{o1, o2, o3})
+			}
+		}
+	}
+	r.Shuffle(len(triples), func(i, j int) { triples[i], triples[j] = triples[j], triples[i] })
+	for i, ops := range triples[:tierN(tier, 400, 8000)] {
+		pos := r.Intn(4)
+		for k, o := range ops {
+			if (o == "~" || o == "!~") && chance(r, 0.7) {
+				pos = k + 1
+			}
+		}
+		names := []string{"a", "b", "c", "d"}
+		names[pos] = pick(r, []string{"/a/", "/7/", "/^[0-9]+$/"})
+		c06EmitSeqAtoms(emit, fmt.Sprintf("rxtri%d.%d:", i, pos), names, ops, 1)
+	}
+	// (2) prefix x regex literal x suffix chain x context
+	y := func() *c06N { return c06Atom("y") }
+	ctxs := c06Contexts()
+	nGeneral := len(ctxs)
+	for _, m := range []string{"~", "!~"} {
+		m := m
+		ctxs = append(ctxs,
+			c06Ctx{"y " + m + " E", func(c *c06N) *c06N { return &c06N{k: "bin", op: m, a: y(), b: c} }},
+			c06Ctx{"E " + m + " y", func(c *c06N) *c06N { return &c06N{k: "bin", op: m, a: c, b: y()} }})
+		for _, op := range plain {
+			op := op
+			ctxs = append(ctxs,
+				c06Ctx{"y " + m + " E " + op + " s1", func(c *c06N) *c06N { return c06Group([]*c06N{y(), c, c06Atom("s1")}, []string{m, op}) }},
+				c06Ctx{"s1 " + op + " y " + m + " E", func(c *c06N) *c06N { return c06Group([]*c06N{c06Atom("s1"), y(), c}, []string{op, m}) }},
+				c06Ctx{"s1 " + op + " E " + m + " y", func(c *c06N) *c06N { return c06Group([]*c06N{c06Atom("s1"), c, y()}, []string{op, m}) }})
+		}
+		for _, op := range c06Asg {
+			op := op
+			ctxs = append(ctxs, c06Ctx{"r2 " + op + " y " + m + " E", func(c *c06N) *c06N {
+				return &c06N{k: "asg", op: op, a: c06Atom("r2"), b: &c06N{k: "bin", op: m, a: y(), b: c}}
+			}})
+		}
+	}
+	prefixes := c06Prefixes
+	if tier != "thorough" {
+		prefixes = [][]string{{}, {"-"}, {"!"}, {"-", "!"}, {"++"}}
+	}
+	for bi, base := range c06Atoms("/a/", "/^[0-9]+$/", "/b|3/") {
+		for _, chain := range []string{"", ".length()", "[0]", ".k", ".length().floor()", "(1)", "['k']", ".k[0]"} {
+			operand := c06Chain(base, chain)
+			for _, pre := range prefixes {
+				if len(pre) > 0 && (pre[len(pre)-1] == "++" || pre[len(pre)-1] == "--") && (bi > 0 || chain == "(1)") {
+					continue
+				}
+				core := operand
+				for i := len(pre) - 1; i >= 0; i-- {
+					k := "un"
+					if pre[i] == "++" || pre[i] == "--" {
+						k = "pre"
+					}
+					core = &c06N{k: k, op: pre[i], a: core}
+				}
+				for ci, cx := range ctxs {
+					if tier != "thorough" {
+						// every context in which the literal stands to the right of ~ / !~ with something behind
+						// it for the bare and the suffixed literal; a sample of the others
+						keep := ci == 0 || (ci >= nGeneral && len(pre) == 0 && (bi == 0 || chance(r, 0.15))) || chance(r, 0.04)
+						if !keep {
+							continue
+						}
+					}
+					tree := cx.mk(core)
+					id := fmt.Sprintf("rxpas:%s:%s:%s", strings.Join(pre, " "), c06Text(operand, c06Min, nil, c06Tight), cx.name)
+					c06EmitPAS(r, emit, id, tree, map[string]string{"row": "regex literal" + chain, "col": "prefix " + strings.Join(pre, " "), "context": cx.name})
+				}
+			}
+		}
+	}
+	// (3) random trees in which regex literals stand wherever an operand is wanted
+	g := &c06G{r: r, rx: 0.15}
+	for i, n := 0, tierN(tier, 700, 12000); i < n; i++ {
+		d := 2 + r.Intn(5)
+		tree := g.gen(d, 'x')
+		for c06Depth(tree) < 2 || !strings.Contains(c06Text(tree, c06Min, nil, c06Spaced), "/") {
+			tree = g.gen(d, 'x')
+		}
+		c06EmitTree(r, emit, fmt.Sprintf("rxt%d", i), tree, r.Intn(3), nil)
+	}
+}
+
 // expressions that assign to / increment something that is not a location
 var c06MustReject = map[string]bool{}
 
@@ -858,6 +1029,11 @@ func init() {
 	for _, t := range []string{"-x++", "!x--", "+x++", "++-x", "--!x", "++x++", "--x--", "x++ ++", "x++--", "++ ++x", "a + b = c", "a = b + c = d", "a * b += c", "a && b = c", "a = b && c = d", "1 = 2", "f() = 3", "x.y() = 2", "f()++", "(x + 1) = 2", "(x = 1) = 2", "'s' = 1", "'s'++", "[1] = 2", "[x] = [1]", "/re/ = 1", "true = 1", "null++", "x is number = 1", "-a++", "(-a)++"} {
 		c06MustReject[t] = true
 	}
+	register(Family{
+		Name: "regex-operands", Prop: "C06",
+		Rule: "a regex LITERAL in every operand position: (1) all 400 ordered pairs of the 20 binary operators with the literal as first, middle and last operand, and triples (quick: 400 sampled, biased to the literal standing right of ~ / !~) -- plain text vs the documented grouping fully parenthesised; (2) 3 literals x 8 suffix chains (none, .length(), [0], .k, ['k'], .k[0], (1), .length().floor()) x prefix operator stacks x the 22 general contexts plus, for ~ and !~, `y ~ E`, `E ~ y`, `y ~ E op s1`, `s1 op y ~ E`, `s1 op E ~ y` for each of the 15 plain operators and `r2 asg y ~ E` for the 5 assignment operators (quick: every such context for the unprefixed literal, a sample otherwise), written without blanks (s~/a/.length()), with blanks, with tabs, fully parenthesised, with redundant parentheses; (3) random expression trees in which regex literals (bare, suffixed, prefixed, as either operand of + - * / %) stand wherever an operand is wanted and right of ~ / !~: one AST without positions across the renderings (oracle), one value (group), dumps and values vs model",
+		Gen:  c06RegexOperands,
+	})
 	register(Family{
 		Name: "compound-assignment", Prop: "C06",
 		Rule: "`t op= e` against `t = t op (e)` for every compound operator, target form (variable, member, index, nested) and right-hand side (atoms, looser and tighter operators, another assignment): same AST without positions (oracle), same value (group), both vs model",
